@@ -77,15 +77,26 @@ def check_box_selection(ctx, fi, P=P):
             ok = (isinstance(f, ast.Subscript) and isinstance(o, ast.Subscript) and
                   norm(f.value) == "self.bfiles" and norm(o.value) == "self.offsets" and fidx == oidx == idxp)
             bk = "slice" if "slice" in kinds else "seq"
+            both_tables = isinstance(f, ast.Subscript) and isinstance(o, ast.Subscript) and \
+                norm(f.value) == "self.bfiles" and norm(o.value) == "self.offsets"
             ctx.check(ok, f"{P}.SAME-INDEX", site,
                       f"{bk} selection zips bfiles[{idxp}] with offsets[{idxp}] (same selector on both tables)",
                       f"{bk} selection zips {norm(f)} with {norm(o)}: file and offset are not selected by the "
-                      f"same index expression", key=bk, where=loc(fi, z))
+                      f"same index expression", key=bk, where=loc(fi, z), semantic=both_tables)
             check_count(ctx, fi, br, bk, s, idxp, z, P)
     ctx.floor(f"{fi.qualname} task constructions", n_tasks, 3)
     # pool primitives
     for s in pools.find_sites(ctx.prog, fi):
         pools.rule_P1(ctx, P, s)
+        # the i-th result is the i-th selected box: the ordered pool result is handed back as it is; a selection
+        # that is read in another order has to undo that order exactly (inverse permutation), which a re-indexing
+        # of the results by the same index array does not
+        ctx.check(s.consumer[0] == "returned", f"{P}.ORDER", site,
+                  "the ordered pool result is returned to the caller unchanged (result i = selected box i)",
+                  f"the pool results are {s.consumer[1] if len(s.consumer) > 1 else s.consumer[0]} before they are "
+                  f"returned: the boxes come back in an order that is not the order of the selection unless the "
+                  f"re-ordering is the exact inverse of the order the tasks were issued in",
+                  key="result:" + s.key, where=loc(fi, s.call), semantic=True)
         ws = {w.qualname for w in s.workers}
         exp = {d["read_fun"].qualname for d in readers.stream_dispatch(ctx.prog, P)[1].values() if "read_fun" in d}
         ctx.check(ws == exp and norm(s.worker_expr) == "self.read_fun", f"{P}.WORKER", site,
